@@ -633,6 +633,9 @@ type Listener struct {
 	Conns  []*Conn // server ends, in dial order
 	// ConnSetup lets the scenario configure both ends of a new connection.
 	ConnSetup func(client, server *Conn)
+	// ClosedErr is what Accept returns once the listener is closed (nil: net.ErrClosed; in-memory listeners such as
+	// grpc's bufconn answer with an error of their own)
+	ClosedErr error
 }
 
 func NewListener(s *Sim, name string) *Listener { return &Listener{sim: s, Name: name} }
@@ -695,6 +698,9 @@ func (l *Listener) Accept() (net.Conn, error) {
 	defer l.unlock()
 	if r == Drained || (l.closed && len(l.queue) == 0) || l.closed {
 		s.logLocked("accept %s closed", l.Name)
+		if l.ClosedErr != nil && r != Drained {
+			return nil, l.ClosedErr
+		}
 		return nil, net.ErrClosed
 	}
 	c := l.queue[0]
